@@ -4,7 +4,8 @@ proof:  lean/NautilusVerif/Properties/C04.lean — on a finite uniform space the
         term is unbiased and hence the evidence estimator, the posterior numerators and the sum of the shell volumes
         are unbiased for any bounds, any likelihood, any number of proposals (exploration discarded).   partial.
 validation (labelled as such, not proof): ensembles of independent seeds on likelihoods with closed-form evidence
-        (Gaussians, separated two-mode mixture, half-space zero-likelihood plateau with log-ramp, wrap-around peak declared
+        (Gaussians, separated two-mode mixture, half-space zero-likelihood plateau with log-ramp, a plateau that fills whole
+        shells, an unconstrained parameter, a peak on a face of the cube with a sampler pool, wrap-around peak declared
         periodic; with/without a network): Student-t tests of the mean of (log Z_hat - log Z) sqrt(n_eff), of the posterior
         mean and of sum(exp(shell_log_v)) - 1 across seeds, at a family-wise false-alarm level of 1e-9 per run.
 """
@@ -53,7 +54,39 @@ def ll_wrap(x):
     return float(-0.5 * (d / 0.05) ** 2 - 0.5 * np.sum(((x[1:] - 0.5) / 0.1) ** 2))
 
 
+def ll_ramp90(x):
+    if x[0] < 0.9:
+        return -np.inf
+    return float(np.log(max(x[0] - 0.9, 1e-300)))
+
+
+def ll_gfree(x):
+    return float(-0.5 * ((x[0] - 0.5) / 0.1) ** 2)
+
+
+def ll_edge(x):
+    return float(-0.5 * (x[0] / 0.1) ** 2 - 0.5 * np.sum(((x[1:] - 0.5) / 0.1) ** 2))
+
+
+class PicklePool:
+    """an in-process stand-in for a process pool: every task is pickled and unpickled as multiprocessing does, so that the
+    workers act on copies (the pool branch of NautilusBound.sample merges the counters of those copies)"""
+
+    def __init__(self, size):
+        self.size = size
+
+    def map(self, func, iterable):
+        import pickle
+        return [pickle.loads(pickle.dumps(pickle.loads(pickle.dumps(func))(pickle.loads(pickle.dumps(a))))) for a in iterable]
+
+
 def family(name, d):
+    if name == 'ramp90':    # the zero-likelihood plateau fills whole shells; the other coordinates are unconstrained
+        return ll_ramp90, np.log(0.005), None, None
+    if name == 'gfree':     # one constrained, one unconstrained parameter (outer bound keeps a unit-cube dimension)
+        return ll_gfree, np.log(trunc_gauss_mass(0.5, 0.1)), None, None
+    if name == 'edge':      # peak on a face of the prior cube; run with a sampler pool
+        return ll_edge, np.log(trunc_gauss_mass(0.0, 0.1)) + (d - 1) * np.log(trunc_gauss_mass(0.5, 0.1)), None, None
     if name == 'gauss':
         return ll_gauss, d * np.log(trunc_gauss_mass(0.5, 0.1)), np.full(d, 0.5), None
     if name == 'two':
@@ -80,6 +113,8 @@ def one_run(job):
               neural_network_kwargs=dict(hidden_layer_sizes=(16, 8), max_iter=200))
     if periodic is not None:
         kw['periodic'] = np.array(periodic)
+    if name == 'edge':
+        kw['pool'] = (None, PicklePool(2))
     s = Sampler(lambda x: x, ll, **kw)
     s.run(n_eff=n_eff, discard_exploration=discard)
     pts, log_w, _ = s.posterior()
@@ -96,10 +131,10 @@ def run(chk):
     chk.prove(MODULE, THEOREMS)
     if chk.tier == 'thorough':
         chk.leanchecker([MODULE])
-    n = 16 if chk.tier == 'quick' else 160
-    fams = [('gauss', 2, 0), ('two', 2, 0), ('half', 2, 0), ('wrap', 2, 0), ('gauss', 3, 1)]
+    n = 48 if chk.tier == 'quick' else 192
+    fams = [('gauss', 2, 0), ('two', 2, 0), ('half', 2, 0), ('wrap', 2, 0), ('gauss', 3, 1), ('ramp90', 2, 0), ('gfree', 2, 0), ('edge', 2, 0)]
     if chk.tier == 'thorough':
-        fams += [('gauss', 4, 0), ('two', 3, 1), ('half', 3, 0), ('wrap', 3, 1), ('gauss', 5, 0)]
+        fams += [('gauss', 4, 0), ('two', 3, 1), ('half', 3, 0), ('wrap', 3, 1), ('gauss', 5, 0), ('ramp90', 3, 1), ('gfree', 3, 1), ('edge', 3, 0)]
     jobs = []
     for fi, (name, d, nets) in enumerate(fams):
         for k in range(n):
@@ -138,8 +173,8 @@ def run(chk):
                        'in units of the reported error, of the posterior mean and of the summed shell volumes; every run is non-trivial')
     chk.sample({'families': fams, 'seeds_per_family': n, 'example': res[0]})
     chk.assumptions += ['partial: unbiasedness is proved for the modelled estimator; convergence (adequate live points per mode), float rounding and '
-                        'PRNG quality are validated by the ensemble only; power: the quick tier (16 seeds) only sees offsets of several reported sigma, '
-                        'the thorough tier (160 seeds) about 0.6 sigma (~1.5 % in Z)']
+                        'PRNG quality are validated by the ensemble only; power: the quick tier (48 seeds, critical |t| about 8) sees offsets of about 1.2 reported sigma (~2.6 % in Z), '
+                        'the thorough tier (192 seeds) about 0.55 sigma (~1.2 % in Z)']
     chk.trusted += ['harness/c04.py (closed-form evidences, statistics)', 'scipy.stats / scipy.special']
 
 
